@@ -4,9 +4,20 @@
 (* quantity of the formats (CBOR arguments, offsets, lengths, dates) is an *)
 (* 8-byte big-endian tuple ("U64"); arithmetic on them reports carry-out.  *)
 (***************************************************************************)
-EXTENDS Integers, Sequences, FiniteSets
+EXTENDS Integers, Sequences, FiniteSets, SequencesExt
 
 Byte == 0..255
+Min2Raw(a, b) == IF a < b THEN a ELSE b
+
+\* Linear-time scans.  TLC evaluates a RECURSIVE operator of depth d in O(d^2) and CHOOSE-minimum
+\* over a set in O(n^2); SequencesExt!SelectInSubSeq / SelectLastInSubSeq have Java implementations
+\* that scan once and return the ABSOLUTE index (0 if none) - checked here so that a different
+\* implementation cannot silently change the meaning.
+ASSUME SelectInSubSeq(<<1, 2, 7, 7>>, 2, 4, LAMBDA c : c = 7) = 3
+ASSUME SelectLastInSubSeq(<<7, 2, 7, 1>>, 1, 3, LAMBDA c : c = 7) = 3
+\* first / last index in from..to (clipped to the sequence) whose element satisfies Test; 0 if none
+FirstIn(s, from, to, Test(_)) == IF from > to \/ from > Len(s) THEN 0 ELSE SelectInSubSeq(s, from, Min2Raw(to, Len(s)), Test)
+LastIn(s, from, to, Test(_)) == IF from > to \/ from > Len(s) THEN 0 ELSE SelectLastInSubSeq(s, from, Min2Raw(to, Len(s)), Test)
 
 Zeros(n) == [i \in 1..n |-> 0]
 Rep(n, v) == [i \in 1..n |-> v]
@@ -22,9 +33,8 @@ IsPrefixB(a, b) == Len(a) <= Len(b) /\ SubSeq(b, 1, Len(a)) = a
 \* bytewise lexicographic order
 BytesLess(a, b) ==
   LET m == Min2(Len(a), Len(b))
-      d == {i \in 1..m : a[i] # b[i]}
-  IN IF d = {} THEN Len(a) < Len(b)
-     ELSE LET i == CHOOSE x \in d : \A y \in d : x <= y IN a[i] < b[i]
+      k == IF m = 0 THEN 0 ELSE FirstIn([i \in 1..m |-> IF a[i] = b[i] THEN 0 ELSE 1], 1, m, LAMBDA z : z = 1)
+  IN IF k = 0 THEN Len(a) < Len(b) ELSE a[k] < b[k]
 
 RECURSIVE Concat(_)
 Concat(ss) == IF ss = <<>> THEN <<>> ELSE Head(ss) \o Concat(Tail(ss))
@@ -149,4 +159,31 @@ B64Dec(s, url, pad) ==
      ELSE [ok |-> TRUE, v |-> [i \in 1..nb |-> ByteAt(i)],
            canon |-> \A k \in (nb * 8)..(ns * 6 - 1) : Bit(k) = 0]
 
+-----------------------------------------------------------------------------
+\* decimal text <-> U64 (TLC integers are 32-bit)
+\* a * m + d on 8-byte tuples (m, d small); ovf = result does not fit in 64 bits
+RECURSIVE MulAddFrom(_, _, _, _)
+MulAddFrom(a, m, i, c) ==
+  IF i = 0 THEN [v |-> <<>>, carry |-> c]
+  ELSE LET t == a[i] * m + c
+           r == MulAddFrom(a, m, i - 1, t \div 256)
+       IN [v |-> Append(r.v, t % 256), carry |-> r.carry]
+U64MulAdd(a, m, d) == MulAddFrom(a, m, 8, d)
+RECURSIVE DecFrom(_, _, _)
+DecFrom(ds, i, acc) ==
+  IF i > Len(ds) THEN [ok |-> TRUE, v |-> acc]
+  ELSE LET r == U64MulAdd(acc, 10, ds[i] - 48) IN
+       IF r.carry # 0 THEN [ok |-> FALSE, v |-> U64Zero] ELSE DecFrom(ds, i + 1, r.v)
+\* ds: non-empty sequence of ASCII digits
+DecToU64(ds) == IF Len(ds) = 0 \/ \E i \in 1..Len(ds) : ~IsDigit(ds[i]) THEN [ok |-> FALSE, v |-> U64Zero] ELSE DecFrom(ds, 1, U64Zero)
+\* division of an 8-byte tuple by a small m: [q, r]
+RECURSIVE DivFrom(_, _, _, _)
+DivFrom(a, m, i, rem) ==
+  IF i > 8 THEN [q |-> <<>>, r |-> rem]
+  ELSE LET t == rem * 256 + a[i]
+           rest == DivFrom(a, m, i + 1, t % m)
+       IN [q |-> <<t \div m>> \o rest.q, r |-> rest.r]
+RECURSIVE U64ToDec(_)
+U64ToDec(a) == LET d == DivFrom(a, 10, 1, 0) IN
+               IF d.q = U64Zero THEN <<48 + d.r>> ELSE Append(U64ToDec(d.q), 48 + d.r)
 =============================================================================
